@@ -198,6 +198,11 @@ def handle : Handler := fun j => do
   let twin := if dom == "addr" then harmless h
     else if dom == "num" then String.ofList (h.toList.map (fun c => if c == '-' || c == '+' then c else if c.isDigit then '1' else 'a'))
     else String.ofList (harmlessChars h.toList)
-  pure <| Json.mkObj [("h", outJson oh), ("t", outJson ot), ("twin_ok", Json.bool (twin == t))]
+  -- hostile KEYS (dom = "key"): the twin keeps the key-like base and blanks the fragment around it: same length, and it differs from
+  -- the hostile key only where it has the letter 'a'
+  let twinOk := if dom == "key" then
+      t.length == h.length && (List.zip h.toList t.toList).all (fun (a, b) => a == b || b == 'a')
+    else twin == t
+  pure <| Json.mkObj [("h", outJson oh), ("t", outJson ot), ("twin_ok", Json.bool twinOk)]
 
 end Driver.SqlTextD
